@@ -171,7 +171,7 @@ theorem populate_flat (orc : Oracle) (locale : Str) (args : List (Str × PV)) (v
 /-! ### groups and leaves -/
 
 /-- a group is returned unchanged -/
-theorem resolvePV_group (orc : Oracle) (w : World) (dflt : Str) (fuel : Nat) (vis : List KeyId) (phys : KeyId)
+theorem resolvePV_group (orc : Oracle) (w : World) (dflt : Fallbacks) (fuel : Nat) (vis : List KeyId) (phys : KeyId)
     (top : Str) (o : Option Loc) (v' : PV) (h : resolvePV orc w dflt fuel vis phys top (.subkeys o) = .ok v') :
     v' = .subkeys o := by
   cases fuel with
@@ -179,29 +179,26 @@ theorem resolvePV_group (orc : Oracle) (w : World) (dflt : Str) (fuel : Nat) (vi
   | succ n => simp only [resolvePV, Res.ok.injEq] at h; exact h.symm
 
 /-- the `.ok` results of `resolveNode` are resolved foreign keys -/
-theorem resolveNode_ok_set (orc : Oracle) (w : World) (dflt : Str) :
+theorem resolveNode_ok_set (orc : Oracle) (w : World) (dflt : Fallbacks) :
     ∀ (fuel : Nat) (vis : List KeyId) (phys : KeyId) (top : Str) (target : KeyPath)
-      (args : List (Str × PV)) (mj : Bool) (v' : PV),
-      resolveNode orc w dflt fuel vis phys top target args mj = .ok v' → ∃ v, v' = .fk (.set v) := by
+      (args : List (Str × PV)) (v' : PV),
+      resolveNode orc w dflt fuel vis phys top target args = .ok v' → ∃ v, v' = .fk (.set v) := by
   intro fuel
-  induction fuel with
-  | zero => intro vis phys top target args mj v' h; simp [resolveNode] at h
-  | succ n ih =>
-    intro vis phys top target args mj v' h
+  cases fuel with
+  | zero => intro vis phys top target args v' h; simp [resolveNode] at h
+  | succ n =>
+    intro vis phys top target args v' h
     rw [resolveNode_succ] at h
     split at h <;> try (simp at h; done)
-    · split at h
-      · simp at h
-      · exact ih _ _ _ _ _ _ _ h
-    · split at h
-      · simp at h
-      · split at h <;> try (simp at h; done)
-        split at h <;> try (simp at h; done)
-        split at h <;> simp at h
-        exact ⟨_, h.symm⟩
+    split at h
+    · simp at h
+    · split at h <;> try (simp at h; done)
+      split at h <;> try (simp at h; done)
+      split at h <;> simp at h
+      exact ⟨_, h.symm⟩
 
 /-- a non-group stays a non-group -/
-theorem resolvePV_leaf (orc : Oracle) (w : World) (dflt : Str) (fuel : Nat) (vis : List KeyId) (phys : KeyId)
+theorem resolvePV_leaf (orc : Oracle) (w : World) (dflt : Fallbacks) (fuel : Nat) (vis : List KeyId) (phys : KeyId)
     (top : Str) (v v' : PV) (hv : isGroup v = false) (h : resolvePV orc w dflt fuel vis phys top v = .ok v') :
     isGroup v' = false := by
   cases fuel with
@@ -217,7 +214,7 @@ theorem resolvePV_leaf (orc : Oracle) (w : World) (dflt : Str) (fuel : Nat) (vis
       | set i => simp only [resolvePV, Res.ok.injEq] at h; subst h; rfl
       | notSet p a =>
         rw [resolvePV_notSet] at h
-        obtain ⟨x, rfl⟩ := resolveNode_ok_set orc w dflt _ _ _ _ _ _ _ _ h
+        obtain ⟨x, rfl⟩ := resolveNode_ok_set orc w dflt _ _ _ _ _ _ _ h
         rfl
     | comp k i =>
       rw [resolvePV_comp] at h
@@ -239,11 +236,11 @@ theorem resolvePV_leaf (orc : Oracle) (w : World) (dflt : Str) (fuel : Nat) (vis
 
 /-! ### resolution keeps leaves flat -/
 
-def ResolveFlat (orc : Oracle) (w : World) (dflt : Str) (fuel : Nat) : Prop :=
+def ResolveFlat (orc : Oracle) (w : World) (dflt : Fallbacks) (fuel : Nat) : Prop :=
   (∀ visiting phys top v v', Flat v = true →
     resolvePV orc w dflt fuel visiting phys top v = .ok v' → Flat v' = true) ∧
-  (∀ visiting phys top target args mj v', FlatK args = true →
-    resolveNode orc w dflt fuel visiting phys top target args mj = .ok v' → Flat v' = true) ∧
+  (∀ visiting phys top target args v', FlatK args = true →
+    resolveNode orc w dflt fuel visiting phys top target args = .ok v' → Flat v' = true) ∧
   (∀ visiting phys top l l', FlatL l = true →
     resolveL orc w dflt fuel visiting phys top l = .ok l' → FlatL l' = true) ∧
   (∀ visiting phys top l l', FlatB l = true →
@@ -253,7 +250,7 @@ def ResolveFlat (orc : Oracle) (w : World) (dflt : Str) (fuel : Nat) : Prop :=
   (∀ visiting phys top l l', FlatK l = true →
     resolveArgs orc w dflt fuel visiting phys top l = .ok l' → FlatK l' = true)
 
-theorem resolve_flat (orc : Oracle) (w : World) (dflt : Str) (hW : WorldFlat w) :
+theorem resolve_flat (orc : Oracle) (w : World) (dflt : Fallbacks) (hW : WorldFlat w) :
     ∀ fuel, ResolveFlat orc w dflt fuel := by
   intro fuel
   induction fuel with
@@ -275,7 +272,7 @@ theorem resolve_flat (orc : Oracle) (w : World) (dflt : Str) (hW : WorldFlat w) 
         | notSet p a =>
           simp only [resolvePV] at h
           simp only [Flat] at hc
-          exact ihNode _ _ _ _ _ _ _ hc h
+          exact ihNode _ _ _ _ _ _ hc h
       | comp k i =>
         simp only [resolvePV] at h
         simp only [Flat] at hc
@@ -307,13 +304,11 @@ theorem resolve_flat (orc : Oracle) (w : World) (dflt : Str) (hW : WorldFlat w) 
         subst h
         simp only [Flat, Bool.and_eq_true]
         exact ⟨ihPV _ _ _ _ _ hc.1 ho, ihF _ _ _ _ _ hc.2 hfs⟩
-    · intro visiting phys top target args mj v' hc h
+    · intro visiting phys top target args v' hc h
       simp only [resolveNode] at h
       split at h <;> try (simp at h; done)
-      · split at h
-        · simp at h
-        · exact ihNode _ _ _ _ _ _ _ hc h
-      · rename_i value hnd hval
+      · rename_i src value hfd
+        have hval := (findDefining_ok_stored w dflt _ _ _ _ _ _ hfd).1
         split at h
         · simp at h
         · split at h <;> try (simp at h; done)
@@ -392,10 +387,135 @@ theorem resolve_flat (orc : Oracle) (w : World) (dflt : Str) (hW : WorldFlat w) 
         exact ⟨ihPV _ _ _ _ _ hc.1 hx, ihA _ _ _ _ _ hc.2 hxs⟩
 
 /-- resolution keeps leaves flat -/
-theorem resolvePV_flat (orc : Oracle) (w : World) (dflt : Str) (hw : WorldFlat w) :
+theorem resolvePV_flat (orc : Oracle) (w : World) (dflt : Fallbacks) (hw : WorldFlat w) :
     ∀ (fuel : Nat) (vis : List KeyId) (phys : KeyId) (top : Str) (v v' : PV),
       Flat v = true → resolvePV orc w dflt fuel vis phys top v = .ok v' → Flat v' = true :=
   fun fuel vis phys top v v' hv h => (resolve_flat orc w dflt hw fuel).1 vis phys top v v' hv h
+
+/-! ### the fuel given to the fallback walk always suffices -/
+
+/-- how many entries of `inherits` have a key that was not visited yet -/
+def walkRem (fb : Fallbacks) (vis : List Str) : Nat :=
+  ((fb.inherits.map Prod.fst).filter (fun k => !vis.contains k)).length
+
+theorem get?_key_mem {α : Type} {k : Str} {v : α} : ∀ {m : List (Str × α)}, AMap.get? k m = some v → k ∈ m.map Prod.fst
+  | [], h => by simp [AMap.get?] at h
+  | (k', v') :: rest, h => by
+    simp only [AMap.get?] at h
+    split at h
+    · rename_i hk
+      have : k' = k := by simpa using hk
+      simp [this]
+    · simp only [List.map_cons, List.mem_cons]
+      exact .inr (get?_key_mem h)
+
+theorem filter_length_le_of_imp {p q : Str → Bool} (hpq : ∀ x, q x = true → p x = true) :
+    ∀ (l : List Str), (l.filter q).length ≤ (l.filter p).length
+  | [] => by simp
+  | c :: r => by
+    have ih := filter_length_le_of_imp hpq r
+    simp only [List.filter_cons]
+    cases hqc : q c with
+    | false =>
+      simp only [Bool.false_eq_true, if_false]
+      split
+      · simp only [List.length_cons]; omega
+      · exact ih
+    | true => simp only [hpq c hqc, if_true, List.length_cons]; omega
+
+theorem filter_length_lt_of_mem {p q : Str → Bool} (hpq : ∀ x, q x = true → p x = true) {a : Str} :
+    ∀ {l : List Str}, a ∈ l → p a = true → q a = false → (l.filter q).length < (l.filter p).length
+  | [], h, _, _ => by simp at h
+  | b :: rest, h, hp, hq => by
+    have hle := filter_length_le_of_imp hpq rest
+    rcases List.mem_cons.mp h with rfl | hm
+    · simp only [List.filter_cons, hp, hq, if_true, Bool.false_eq_true, if_false, List.length_cons]
+      omega
+    · have ih := filter_length_lt_of_mem hpq hm hp hq
+      simp only [List.filter_cons]
+      cases hqb : q b with
+      | false =>
+        simp only [Bool.false_eq_true, if_false]
+        split
+        · simp only [List.length_cons]; omega
+        · exact ih
+      | true => simp only [hpq b hqb, if_true, List.length_cons]; omega
+
+theorem walkRem_lt (fb : Fallbacks) (vis : List Str) (cur : Str) (hk : cur ∈ fb.inherits.map Prod.fst)
+    (hn : cur ∉ vis) : walkRem fb (cur :: vis) < walkRem fb vis := by
+  unfold walkRem
+  refine filter_length_lt_of_mem ?_ hk ?_ ?_
+  · intro x hx
+    simp only [List.contains_cons, Bool.not_eq_true', Bool.or_eq_false_iff] at hx
+    simp only [hx.2, Bool.not_false]
+  · simpa using hn
+  · simp
+
+/-- at the default locale the walk stops: one turn of fuel is enough -/
+theorem findDefining_default_panic (w : World) (fb : Fallbacks) (fuel : Nat) (vis : List Str) (t : KeyPath)
+    (p : String) (h : findDefining w fb (fuel + 1) vis fb.default t = .panic p) :
+    w.getValueAt fb.default t = .panic p := by
+  rw [findDefining] at h
+  split at h
+  · simp at h
+  · rename_i p' hp; simp only [Res.panic.injEq] at h; subst h; exact hp
+  · simp at h
+  · simp at h
+  · simp at h
+
+/-- **the walk never runs out of fuel**: started on a locale not yet visited with at least
+    (entries of `inherits` whose key is not visited) + 2 turns, a panic of the walk is a panic of a lookup -/
+theorem findDefining_fuel_suffices (w : World) (fb : Fallbacks) (t : KeyPath) :
+    ∀ (fuel : Nat) (vis : List Str) (cur : Str), cur ∉ vis → walkRem fb vis + 2 ≤ fuel →
+      ∀ p, findDefining w fb fuel vis cur t = .panic p → ∃ c, w.getValueAt c t = .panic p
+  | 0, vis, cur, _, hf, p, _ => by omega
+  | fuel + 1, vis, cur, hn, hf, p, h => by
+    have key : (cur == fb.default) = false →
+        findDefining w fb fuel (cur :: vis) (nextLocale fb (cur :: vis) cur) t = .panic p →
+        ∃ c, w.getValueAt c t = .panic p := by
+      intro _ h
+      unfold nextLocale at h
+      have stop : findDefining w fb fuel (cur :: vis) fb.default t = .panic p → ∃ c, w.getValueAt c t = .panic p := by
+        intro h
+        cases fuel with
+        | zero => omega
+        | succ n => exact ⟨_, findDefining_default_panic w fb n _ t p h⟩
+      split at h
+      · rename_i l hl
+        split at h
+        · exact stop h
+        · rename_i hc
+          have hl' : l ∉ cur :: vis := by simpa using hc
+          have := walkRem_lt fb vis cur (get?_key_mem hl) hn
+          exact findDefining_fuel_suffices w fb t fuel (cur :: vis) l hl' (by omega) p h
+      · exact stop h
+    rw [findDefining] at h
+    split at h
+    · simp at h
+    · rename_i p' hp; simp only [Res.panic.injEq] at h; subst h; exact ⟨cur, hp⟩
+    · split at h
+      · simp at h
+      · rename_i hd; exact key (by simpa using hd) h
+    · simp at h
+    · split at h
+      · simp at h
+      · rename_i hd; exact key (by simpa using hd) h
+
+/-- the fuel `resolveNode` gives to the walk (`inherits.length + 2`) suffices: the walk panics only if a lookup does -/
+theorem nodeWalk_panic (w : World) (fb : Fallbacks) (top : Str) (t : KeyPath) (p : String)
+    (h : findDefining w fb (fb.inherits.length + 2) [] top t = .panic p) : ∃ c, w.getValueAt c t = .panic p := by
+  refine findDefining_fuel_suffices w fb t _ [] top (by simp) ?_ p h
+  have : walkRem fb [] ≤ fb.inherits.length := by
+    unfold walkRem
+    exact Nat.le_trans (List.length_filter_le _ _) (by simp)
+  omega
+
+/-- in a world whose lookups never panic, the walk never panics — in particular never with `"fuel"` -/
+theorem nodeWalk_no_panic (w : World) (hW : WorldNP w) (fb : Fallbacks) (top : Str) (t : KeyPath) (p : String) :
+    findDefining w fb (fb.inherits.length + 2) [] top t ≠ .panic p := by
+  intro h
+  obtain ⟨c, hc⟩ := nodeWalk_panic w fb top t p h
+  exact hW _ _ _ hc
 
 /-! ### the only panics of resolution -/
 
@@ -417,11 +537,30 @@ theorem seq2_panic {α β γ : Type} {g : α → β → γ} {a : Res α} {b : Re
     | panic p => simp [seq2] at h; subst h; exact .inr rfl
     | ok y => simp [seq2] at h
 
-def ResolvePanic (orc : Oracle) (w : World) (dflt : Str) (fuel : Nat) : Prop :=
+/-- the fallback walk panics only when it runs out of fuel or a lookup panics -/
+theorem findDefining_panic (w : World) (fb : Fallbacks) : ∀ (fuel : Nat) (vis : List Str) (cur : Str) (t : KeyPath)
+    (p : String), findDefining w fb fuel vis cur t = .panic p → p = "fuel" ∨ ∃ c, w.getValueAt c t = .panic p
+  | 0, vis, cur, t, p, h => by simp [findDefining] at h; exact .inl h.symm
+  | fuel + 1, vis, cur, t, p, h => by
+    rw [findDefining] at h
+    split at h
+    · simp at h
+    · rename_i p' hp
+      simp only [Res.panic.injEq] at h; subst h
+      exact .inr ⟨cur, hp⟩
+    · split at h
+      · simp at h
+      · exact findDefining_panic w fb fuel _ _ t p h
+    · simp at h
+    · split at h
+      · simp at h
+      · exact findDefining_panic w fb fuel _ _ t p h
+
+def ResolvePanic (orc : Oracle) (w : World) (dflt : Fallbacks) (fuel : Nat) : Prop :=
   (∀ visiting phys top v s,
     resolvePV orc w dflt fuel visiting phys top v = .panic s → Benign s) ∧
-  (∀ visiting phys top target args mj s,
-    resolveNode orc w dflt fuel visiting phys top target args mj = .panic s → Benign s) ∧
+  (∀ visiting phys top target args s,
+    resolveNode orc w dflt fuel visiting phys top target args = .panic s → Benign s) ∧
   (∀ visiting phys top l s,
     resolveL orc w dflt fuel visiting phys top l = .panic s → Benign s) ∧
   (∀ visiting phys top l s,
@@ -431,7 +570,7 @@ def ResolvePanic (orc : Oracle) (w : World) (dflt : Str) (fuel : Nat) : Prop :=
   (∀ visiting phys top l s,
     resolveArgs orc w dflt fuel visiting phys top l = .panic s → Benign s)
 
-theorem resolve_panic (orc : Oracle) (w : World) (dflt : Str) (hW : WorldNP w) :
+theorem resolve_panic (orc : Oracle) (w : World) (dflt : Fallbacks) (hW : WorldNP w) :
     ∀ fuel, ResolvePanic orc w dflt fuel := by
   intro fuel
   induction fuel with
@@ -452,7 +591,7 @@ theorem resolve_panic (orc : Oracle) (w : World) (dflt : Str) (hW : WorldNP w) :
         | set i => simp [resolvePV] at h
         | notSet p a =>
           rw [resolvePV_notSet] at h
-          exact ihNode _ _ _ _ _ _ _ h
+          exact ihNode _ _ _ _ _ _ h
       | comp k i =>
         rw [resolvePV_comp] at h
         exact ihPV _ _ _ _ _ (mapOk_panic h)
@@ -467,16 +606,15 @@ theorem resolve_panic (orc : Oracle) (w : World) (dflt : Str) (hW : WorldNP w) :
         rcases seq2_panic h with h1 | h1
         · exact ihF _ _ _ _ _ h1
         · exact ihPV _ _ _ _ _ h1
-    · intro visiting phys top target args mj s h
+    · intro visiting phys top target args s h
       rw [resolveNode_succ] at h
       split at h
       · simp at h
       · rename_i p hp
-        exact absurd hp (hW _ _ _)
-      · simp at h
-      · split at h
-        · simp at h
-        · exact ihNode _ _ _ _ _ _ _ h
+        simp only [Res.panic.injEq] at h; subst h
+        rcases findDefining_panic w dflt _ _ _ _ _ hp with rfl | ⟨c, hc⟩
+        · exact Benign_fuel
+        · exact absurd hc (hW _ _ _)
       · split at h
         · simp at h
         · split at h
@@ -532,7 +670,7 @@ theorem resolve_panic (orc : Oracle) (w : World) (dflt : Str) (hW : WorldNP w) :
         · exact ihA _ _ _ _ _ h1
 
 /-- with panic-free lookups, resolution panics only for the model's fuel or the oracle gap -/
-theorem resolvePV_panic (orc : Oracle) (w : World) (dflt : Str) (hw : WorldNP w) :
+theorem resolvePV_panic (orc : Oracle) (w : World) (dflt : Fallbacks) (hw : WorldNP w) :
     ∀ (fuel : Nat) (vis : List KeyId) (phys : KeyId) (top : Str) (v : PV) (s : String),
       resolvePV orc w dflt fuel vis phys top v = .panic s → Benign s :=
   fun fuel vis phys top v s h => (resolve_panic orc w dflt hw fuel).1 vis phys top v s h
